@@ -71,13 +71,14 @@ func (a *Application) executePassthroughRequest(
 	a.logRequestStart(pr, len(endpoints))
 
 	// Execute proxy
-	err = a.proxyService.ProxyRequestToEndpoints(ctx, w, r, endpoints, pr.stats, pr.requestLogger)
+	tw := &responseStartTracker{ResponseWriter: w}
+	err = a.proxyService.ProxyRequestToEndpoints(ctx, tw, r, endpoints, pr.stats, pr.requestLogger)
 
 	a.logRequestResult(pr, err)
 
 	if err != nil {
 		// only write error if response hasn't started
-		if w.Header().Get(constants.HeaderContentType) == "" {
+		if !responseStarted(tw) {
 			a.writeTranslatorError(w, trans, pr, fmt.Errorf("proxy error: %w", err), http.StatusBadGateway)
 		}
 	}
